@@ -22,6 +22,7 @@ func init() {
 			{"C03.R5", "q", "Clear guarded by Src != Dst", c03r5},
 			{"C03.R6", "q", "tombstone reservation", c03r6},
 			{"C03.R7", "q", "ClearChunk(src) before scanning src", c03r7},
+			{"C13.R3b", "q", "shared: collision item's chunk reported to GC", c13r3b},
 			{"C18.R2", "q", "shared: keep table", c18r2},
 			{"C18.R4", "q", "shared: rewritten file cut and released on every exit", c18r4},
 			{"C18.R5", "q", "shared: earlier file appended to, never overwritten", c18r5},
